@@ -248,6 +248,9 @@ use std::io::{BufRead, BufReader, Read, Write};
 use std::marker::PhantomData;
 use std::ops::{Deref, DerefMut};
 use std::process::Child;
+#[cfg(all(varlink_rust_verif, varlink_rust_verif_clientsync))]
+use shuttle::sync::{Arc, RwLock};
+#[cfg(not(all(varlink_rust_verif, varlink_rust_verif_clientsync)))]
 use std::sync::{Arc, RwLock};
 
 use serde::de::{self, DeserializeOwned};
